@@ -436,12 +436,15 @@ impl CodeGenerator {
             IRNode::Map {
                 input, projection, ..
             } => {
-                // For Map, check if output is binary
-                if projection.len() != 2 {
+                // For Map, the output must be the edge tuple itself: `tc(Y, X) <- edge(X, Y)`
+                // or `tc(X, X) <- edge(X, Y)` is not the base case of a transitive closure
+                if projection != &[0, 1] {
                     return None;
                 }
                 match input.as_ref() {
-                    IRNode::Scan { relation, .. } => (relation.clone(), 2),
+                    IRNode::Scan { relation, schema } if schema.len() == 2 => {
+                        (relation.clone(), 2)
+                    }
                     _ => return None,
                 }
             }
@@ -498,8 +501,11 @@ impl CodeGenerator {
                     None
                 }
             }
-            // Also handle Map over Join (for projections)
-            IRNode::Map { input, .. } => match input.as_ref() {
+            // Also handle Map over Join (for projections). Only the projection of
+            // edge(X, Y) JOIN tc(Y, Z) onto (X, Z) is a transitive closure step.
+            IRNode::Map {
+                input, projection, ..
+            } if projection == &[0, 2] => match input.as_ref() {
                 IRNode::Join {
                     left,
                     right,
@@ -671,6 +677,54 @@ impl CodeGenerator {
             || !base_set.contains(magic_name.as_str())
             || !base_set.contains(edge_rel)
         {
+            return None;
+        }
+
+        // The optimized evaluation computes exactly
+        //   reach(X, Y) <- magic(X), edge(X, Y)
+        //   reach(X, Z) <- [magic(X),] reach(X, Y), edge(Y, Z)
+        // so the heads must carry the edge columns through unchanged: a base case
+        // like `p(Y, Y) <- magic(Y), e(X, Y)` or a recursive rule that projects
+        // `(X, Y)` instead of `(X, Z)` has the same joins but another result.
+        fn is_scan_of(ir: &IRNode, rel: &str) -> bool {
+            matches!(ir, IRNode::Scan { relation, .. } if relation == rel)
+        }
+        let base_join = match &base_inputs[0] {
+            IRNode::Map {
+                input, projection, ..
+            } if projection == &[0, 1] => input.as_ref(),
+            other => other,
+        };
+        let base_is_tc = matches!(
+            base_join,
+            IRNode::Join { left, right, left_keys, right_keys, .. }
+                if is_scan_of(left, &magic_name)
+                    && is_scan_of(right, edge_rel)
+                    && left_keys == &[0]
+                    && right_keys == &[0]
+        );
+        let rec_is_tc = matches!(
+            &recursive_inputs[0],
+            IRNode::Map { input, projection, .. }
+                if projection == &[0, 2]
+                    && matches!(
+                        input.as_ref(),
+                        IRNode::Join { left, right, left_keys, right_keys, .. }
+                            if left_keys == &[1]
+                                && right_keys == &[0]
+                                && is_scan_of(right, edge_rel)
+                                && (is_scan_of(left, recursive_rel)
+                                    || matches!(
+                                        left.as_ref(),
+                                        IRNode::Join { left: m, right: r, left_keys: mk, right_keys: rk, .. }
+                                            if is_scan_of(m, &magic_name)
+                                                && is_scan_of(r, recursive_rel)
+                                                && mk == &[0]
+                                                && rk == &[0]
+                                    ))
+                    )
+        );
+        if !base_is_tc || !rec_is_tc {
             return None;
         }
 
